@@ -109,7 +109,7 @@ fn light_case(ctx: &mut Ctx, case: u64, rng: &mut Rng, scratch: &Scratch) {
     let mut uniq = case * 1000;
     let mut tick = 0u64;
     let mut faults = 0;
-    let events = rng.range(8, 60);
+    let events = rng.range(8, if ctx.is_quick() { 60 } else { 120 });
     ctx.eval();
     for _ in 0..events {
         tick += 1;
